@@ -20,7 +20,7 @@ BOXES = ("mixed", "mixed", "boxed", "narrow", "narrow", "lower", "upper", "boxed
 
 def floors(tier):
     return {"runs": 500, "points_checked": 5000, "evaluations_with_component_on_bound": 1500, "fd_runs": 150, "runs_with_bounds_object_edited_in_place": 60, "runs_with_nested_run": 60, "nested_runs": 100,
-            "runs_with_low_precision_start": 80, "restart_legs": 300, "runs_in_25_to_60_dimensions_with_memory_above_10": 100, "restart_legs_on_a_box_re-entered_with_last_digit_differences": 60, "runs_with_user_step_cap": 200, "runs_on_boxes_of_magnitude_1e20_and_more": 50, "runs_with_user_functions_working_in_place_on_their_argument": 80, "__nontrivial__": 200}
+            "runs_with_low_precision_start": 80, "restart_legs": 300, "runs_started_a_few_ulp_inside_bounds_with_an_extrapolating_search": 80, "runs_in_25_to_60_dimensions_with_memory_above_10": 100, "restart_legs_on_a_box_re-entered_with_last_digit_differences": 60, "runs_with_user_step_cap": 200, "runs_on_boxes_of_magnitude_1e20_and_more": 50, "runs_with_user_functions_working_in_place_on_their_argument": 80, "__nontrivial__": 200}
 
 
 def cases(tier, seed):
@@ -63,6 +63,41 @@ def cases(tier, seed):
         cfg["jac"] = gen.pick(rng, ["callable", "callable", None, "2-point"])
         cfg["cb"] = "never"
         yield {"problem": {"n": int(rng.integers(1, 4)), "seed": int(rng.integers(0, 2**31 - 1))}, "cfg": cfg, "huge": True, "edit_bounds": False}
+    for i in range(150 if tier == "quick" else 4000):
+        cfg = e2e.rand_cfg(rng)
+        cfg.update(jac="callable", cb="never", maxls=20, maxiter=int(rng.integers(3, 25)), maxfun=15000)
+        yield {"problem": {"n": int(rng.integers(2, 6)), "seed": int(rng.integers(0, 2**31 - 1))}, "cfg": cfg, "ulp_pin": True, "edit_bounds": False}
+
+
+def make_ulp_pin_problem(spec):
+    """f(a, y) = -(w.a) y - y + exp(-y) on 0 <= a_i <= U_i, -100 <= y <= 100, started with every a_i a few units in the last place
+    inside a bound and y = 0 (where df/da = 0): the a_i do not move in the first iteration; from the second on the Cauchy point pins
+    them on their bound (a displacement of a few ulp) while y takes a step of several units along which the objective is almost
+    linear, so the line search extrapolates beyond the unit step."""
+    rng = np.random.default_rng(spec["seed"])
+    n = spec["n"]
+    U = np.round(rng.uniform(0.5, 3.0, n - 1), 2)
+    w = rng.uniform(0.3, 2.0, n - 1)
+    up = rng.random(n - 1) < 0.7  # pushed towards the upper bound (w_i > 0) or, mirrored, towards the lower one
+    lb = np.append(np.where(up, 0.0, -U), -100.0)
+    ub = np.append(np.where(up, U, 0.0), 100.0)
+    sg = np.where(up, 1.0, -1.0)
+    k = rng.integers(1, 4, n - 1)
+    a0 = sg * U
+    for _ in range(3):
+        a0 = np.where(k > 0, np.nextafter(a0, 0.0), a0)
+        k = k - 1
+    x0 = np.append(a0, 0.0)
+
+    def f(x):
+        a, y = x[:-1], x[-1]
+        return float(-(w @ (sg * a)) * y - y + np.exp(-y))
+
+    def g(x):
+        a, y = x[:-1], x[-1]
+        return np.append(-w * sg * y, -(w @ (sg * a)) - 1.0 - np.exp(-y))
+
+    return gen.Problem(dict(family="ulp_pin", n=n, seed=spec["seed"], box="boxed", start="ulp_inside"), n, f, g, lb, ub, x0, dict(convex=False))
 
 
 def make_huge_box_problem(spec):
@@ -90,7 +125,10 @@ def make_huge_box_problem(spec):
 
 def run(spec):
     out = Outcome()
-    if spec.get("huge"):
+    if spec.get("ulp_pin"):
+        P = make_ulp_pin_problem(spec["problem"])
+        out.count("runs_started_a_few_ulp_inside_bounds_with_an_extrapolating_search")
+    elif spec.get("huge"):
         P = make_huge_box_problem(spec["problem"])
         out.count("runs_on_boxes_of_magnitude_1e20_and_more")
     else:
@@ -142,7 +180,7 @@ def run(spec):
         # way: 0.3 vs 3*0.1), from the checkpoint's point projected on it. The call may be refused; whatever it evaluates, reports or
         # returns must lie in the box it was given
         xs = np.array(tr.result.x, dtype=float)
-        P2 = gen.make_problem(spec["problem"]) if not spec.get("huge") else make_huge_box_problem(spec["problem"])
+        P2 = make_ulp_pin_problem(spec["problem"]) if spec.get("ulp_pin") else (gen.make_problem(spec["problem"]) if not spec.get("huge") else make_huge_box_problem(spec["problem"]))
         two = P.lb < P.ub
         P2.lb = np.where(two & (xs == P.lb) & np.isfinite(P.lb), np.nextafter(P.lb, np.inf), P.lb)
         P2.ub = np.where(two & (xs == P.ub) & np.isfinite(P.ub), np.nextafter(P.ub, -np.inf), P.ub)
